@@ -38,6 +38,10 @@ def jobs(tier):
             out.append(("e2e.%s.P%d" % (shape, P), "job_e2e", dict(shape=shape, P=P, K=K, order="symbolic", progress=0)))
     for shp in cr.scheme_shapes(["flat2", "nested3", "around3"], tier):
         out.append(("e2e.%s.P16384" % shp, "job_e2e", dict(shape=shp, P=16384, K=1 if shp.startswith("nested3") else 2, order="reversed", progress=0)))
+    spells = sorted(cr.SPELLINGS)
+    for i, sp in enumerate(spells):
+        for shape in (("flat2", "nested3") if tier == "thorough" else (("nested3",) if i % 2 else ("flat2",))):
+            out.append(("e2e.%s.spelled-%s" % (shape, sp), "job_e2e", dict(shape=shape, P=16384, K=1, order="reversed", progress=0, spelling=sp)))
     out.append(("e2e.flat2.options", "job_options", dict(shape="flat2", P=16384, K=1)))
     out.append(("e2e.single.options", "job_options", dict(shape="single", P=16384, K=2)))
     out.append(("e2e.second-create-after-nested-add", "job_second", dict(P=16384, K=2)))
@@ -107,14 +111,14 @@ def oracle_v1(E, info, fs, base, sizes, P, shape, tag="C01", aligned=False):
     E.check(info.get("pieces") == exp, tag + ".pieces", "piece string differs from BEP 3 reference of the listed stream")
 
 
-def job_e2e(E, shape, P, K, order, progress, _mutants=None):
+def job_e2e(E, shape, P, K, order, progress, spelling=None, _mutants=None):
     Pn = P if (P and P > 30) else (2 ** P if P else 16384)
     fs, sizes = cr.make_fs(E, shape, K, Pn, order=order)
     if shape != "single":
         from symx.core import disj
         E.assume(disj(*[s > 0 for s in sizes.values()]))
     w = World(fs, mutants=_mutants)
-    kw = dict(path="/data/name", progress=progress)
+    kw = dict(path=cr.spelled(fs, spelling) if spelling else "/data/name", progress=progress)
     if P:
         kw["piece_length"] = P
     try:
@@ -210,7 +214,8 @@ def job_hasher_symP(E, n, K, _mutants=None):
 
 # ---------------------------------------------------------------- concrete side
 
-def _conc_run(params, model, workdir, seed):
+def _conc_run(params, model, workdir, seed, notes=None):
+    notes = notes or {}
     if "n" in params:
         n = params["n"]
         P = int(model["P"])
@@ -257,16 +262,22 @@ def _conc_run(params, model, workdir, seed):
         for k in ("path", "content"):
             if k in kw:
                 kw[k] = root
+    old = os.getcwd()
+    if params.get("spelling"):
+        kw["path"], cwd = cr.spelled_real(workdir, params["spelling"])
+        os.chdir(cwd)
     try:
         t = cr.real_create("1", **kw)
     except Exception as ex:  # noqa: BLE001
         return ["C01.no-exception: %s" % ex]
+    finally:
+        os.chdir(old)
     order = sorted(SHAPES[shape])
     return ["C01." + b for b in cr.conc_v1(t.meta["info"], root, data, Pn, order)]
 
 
 def replay(params, model, notes, workdir, seed):
-    return _conc_run(params, model, workdir, seed)
+    return _conc_run(params, model, workdir, seed, notes)
 
 
 def validate(tier, workdir, seed):
